@@ -613,13 +613,17 @@ def c03_l2_scenario(binary, work, idx, rng, merged):
     # every 8th scenario ends regulation by a fatal control error instead of a signal: the first fan follows a PID curve
     # (which reads its sensor itself) and that sensor becomes unreadable; the daemon gives up and has to hand back every fan
     fatal = idx % 8 == 5
+    # ... in every second one of those through a function curve (average / delta) over two PID curves whose sensors
+    # become unreadable together
+    fatal_fn = fatal and idx % 16 == 13
     if fatal:
         nfans = rng.choice([2, 3])
         l2.write(os.path.join(sd, "board"), "45000\n")
+        l2.write(os.path.join(sd, "board2"), "47000\n")
     fans_yaml = ""
     devices = []
     for i in range(1, min(nfans, 2) + 1):
-        fans_yaml += "  - id: f%d\n    hwmon:\n      platform: chipa\n      rpmChannel: %d\n    neverStop: %s\n    curve: %s\n    controlAlgorithm: direct\n" % (i, i, rng.choice(["true", "false"]), "pidc" if fatal and i == 1 else "lin")
+        fans_yaml += "  - id: f%d\n    hwmon:\n      platform: chipa\n      rpmChannel: %d\n    neverStop: %s\n    curve: %s\n    controlAlgorithm: direct\n" % (i, i, rng.choice(["true", "false"]), ("fn" if fatal_fn else "pidc") if fatal and i == 1 else "lin")
         devices.append(("hwmon", os.path.join(chip, "pwm%d" % i), os.path.join(chip, "pwm%d_enable" % i) if has_enable else None))
     if nfans == 3:
         fans_yaml += "  - id: ff\n    file:\n      path: %s/filefan\n    curve: lin\n    controlAlgorithm: direct\n" % sd
@@ -661,6 +665,11 @@ def c03_l2_scenario(binary, work, idx, rng, merged):
         phase = "fatal-sensor-error"
         more_sensors = "  - id: board\n    file:\n      path: %s/board\n" % sd
         more_curves = "  - id: pidc\n    pid:\n      sensor: board\n      setPoint: 50\n      p: -0.05\n      i: -0.005\n      d: -0.005\n"
+        if fatal_fn:
+            phase = "fatal-sensor-error-under-a-function-curve"
+            more_sensors += "  - id: board2\n    file:\n      path: %s/board2\n" % sd
+            more_curves += "  - id: pidc2\n    pid:\n      sensor: board2\n      setPoint: 55\n      p: -0.05\n      i: -0.005\n      d: -0.005\n"
+            more_curves += "  - id: fn\n    function:\n      type: %s\n      curves:\n        - pidc\n        - pidc2\n" % ("average" if idx % 32 == 13 else "delta")
     case = {"orig_mode": orig_mode, "orig_pwm": orig_pwm, "has_enable": has_enable, "fans": nfans, "mode_fault": mode_fault, "pwm_fault": pwm_fault,
             "signals": [int(s) for s in sigs], "gaps_s": gaps, "first_signal_phase": phase}
     cls = "mode%d:enable=%s:modeFault=%s:pwmFault=%s:signals=%d:phase=%s" % (orig_mode, has_enable, mode_fault, pwm_fault, nsig, phase)
@@ -679,6 +688,7 @@ def c03_l2_scenario(binary, work, idx, rng, merged):
     try:
         marker, delay = {
             "fatal-sensor-error": (r"Starting controller loop", 0.4),
+            "fatal-sensor-error-under-a-function-curve": (r"Starting controller loop", 0.4),
             "startup-wait": (r"Gathering sensor data", 0.05),
             "analysis": (r"starting initialization sequence|Computing pwm map", 0.05),
             "analysis-late": (r"Measuring RPM curve|Computing pwm map", 0.3),
@@ -697,6 +707,8 @@ def c03_l2_scenario(binary, work, idx, rng, merged):
         elif fatal:
             time.sleep(delay)
             l2.write_atomic(os.path.join(sd, "board"), "4x5\n")
+            if fatal_fn:
+                l2.write_atomic(os.path.join(sd, "board2"), "4x5\n")
             if d.wait(30) is None:
                 # (an unreadable sensor of a PID curve ends the affected fan's controller and with it the daemon; should
                 # that ever change, the signals end the run)
@@ -1147,6 +1159,8 @@ def c15_l2_scenario(binary, work, idx, rng, merged):
     l2.write(os.path.join(sd, "filefan"), "90\n")
     pwm_map = rng.random() < 0.3
     min_max = rng.random() < 0.3
+    if idx in (9, 10):
+        pwm_map = False  # (these two are about the measured map of the file fan)
     extra = ""
     if pwm_map:
         extra += "    pwmMap:\n      0: 0\n      64: 128\n      192: 255\n"
@@ -1200,9 +1214,13 @@ def c15_l2_scenario(binary, work, idx, rng, merged):
         ops, forced = ["start", "reset", "reset", "start"], ["f1", "ff"][idx - 6]
     if idx == 8:
         ops, forced = ["start+reset-while-running", "start"], "f1"
+    elif idx in (9, 10):
+        # the file fan (no tachometer: its characterisation is the measured PWM map alone) is characterised with `fan init`
+        # before the daemon has ever run, then discarded with `fan reset` resp. characterised once more
+        ops, forced = ["init", ["reset", "init"][idx - 9], "start"], "ff"
     elif idx > 8 and rng.random() < 0.25:
         ops = ops[:-1] + ["start+reset-while-running", "start"]
-    if rel_db and (idx == 1 or rng.random() < 0.5):
+    if rel_db and idx not in (9, 10) and (idx == 1 or rng.random() < 0.5):
         # the user characterises a fan with `fan init` before the daemon runs for the first time
         ops = ["init"] + ops[(2 if idx == 1 else 0):]
     case = {"relative_dbPath_and_configuration_elsewhere": rel_db, "pwmMap": pwm_map, "minMax": min_max, "ops": ops, "fan_ids_in_configuration_order": re.findall(r"- id: (\S+)", fans_yaml)}
@@ -1224,6 +1242,25 @@ def c15_l2_scenario(binary, work, idx, rng, merged):
             analysed[which] = (op == "init")
             discarded[which] = (op == "reset")
             trace.append({"op": "%s %s" % (op, which), "exit": rc})
+            if op == "init" and which == "ff" and not pwm_map and rc == 0:
+                # `fan init` is the request to characterise the fan (again): the file fan is swept whatever is stored
+                written = set()
+                try:
+                    with open(os.path.join(sd, "cli%d.events" % k)) as f:
+                        for line in f:
+                            try:
+                                e = json.loads(line)
+                            except ValueError:
+                                continue
+                            if e.get("path") == ff and e.get("op") == "w":
+                                written.add(e.get("val"))
+                except OSError:
+                    pass
+                trace[-1]["distinct_pwm_values_written"] = len(written)
+                merged.counters["l2_fan_init_sweeps_of_the_file_fan"] = merged.counters.get("l2_fan_init_sweeps_of_the_file_fan", 0) + (1 if len(written) > 7 else 0)
+                if len(written) <= 7:
+                    merged.add_violation("fan-init-does-not-characterise-again:ff:%s" % cls, "`fan init` no. %d wrote %d distinct PWM values (a sweep writes 256); trace %s" % (k, len(written), json.dumps(trace)), {"case": case, "trace": trace})
+                    return
             continue
         d = l2.Daemon(binary, sd, cfg, tree.root, driver=driver, timescale=10, name="start%d" % k, cfg_dir=cfg_dir)
         live_reset = None
@@ -1272,6 +1309,10 @@ def c15_l2_scenario(binary, work, idx, rng, merged):
                     # the stored data is used "until the user discards it": after `fan reset` the RPM curve is measured anew
                     merged.add_violation("discarded-characterisation-still-used:%s:%s" % (fan, cls), "start no. %d after `fan reset`: no RPM-curve measurement: %s; trace %s" % (k, json.dumps(obs), json.dumps(trace)), replay)
                     return
+                if discarded[fan] and fan == "ff" and not pwm_map and len(distinct) <= 7:
+                    # ... and so is the PWM map of the file fan (whose characterisation is that map)
+                    merged.add_violation("discarded-characterisation-still-used:%s:%s" % (fan, cls), "start no. %d after `fan reset`: no PWM sweep: %s; trace %s" % (k, json.dumps(obs), json.dumps(trace)), replay)
+                    return
                 discarded[fan] = False
                 if pwm_map and len(distinct) > 3 + 4:
                     merged.add_violation("sweep-although-pwmMap-configured:%s" % fan, "start no. %d: %s" % (k, json.dumps(obs)), replay)
@@ -1294,7 +1335,7 @@ def c15(p, tier, work, t0, replay):
     q = tier == "quick"
     merged = vcheck.run_vh_batches(vh, p, tier, 8 if q else 16, work, 600 if q else 3000)
     binary = vbuild.build(work, src, ".", os.path.join(work, "fan2go"))
-    run_l2(lambda i, r, m: c15_l2_scenario(binary, work, i, r, m), 10 if q else 120, merged, "process-level", 53)
+    run_l2(lambda i, r, m: c15_l2_scenario(binary, work, i, r, m), 11 if q else 120, merged, "process-level", 53)
     rule = ("two layers. In-process: seeded random sequences of start / reset / init (3..7 operations) against one real bbolt database for hwmon, file and cmd fans, with / without a "
             "configured pwmMap and minPwm+maxPwm; a start = new fan and controller objects + Run() until the first regulation cycle. Process level: the real daemon is started, "
             "stopped with SIGTERM and started again, with `fan2go fan --id <id> reset|init` in between, on a hwmon and a file fan. Observed per start from the device event log: distinct "
@@ -1368,12 +1409,19 @@ controllerAdjustmentTickRate: 10ms
     if comp == "sensor" and sensor_kind == "cmd":
         # the command itself misbehaves (no device rule): hangs beyond its time limit, fails, prints garbage / NaN
         cmd_fault = kind = "hang" if idx < 15 else rng.choice(["hang", "hang", "exit", "garbage", "nan"])
+    # a hwmon / file sensor whose file really holds something that is not a reading for a while - text that a lenient
+    # number parser would take for a float ("nan", "inf") or plain garbage; placed by time like the command faults
+    text_fault = None
+    if comp == "sensor" and sensor_kind != "cmd" and (idx in (0, 10) or rng.random() < 0.4):
+        text_fault = kind = {0: "nan-text", 10: "inf-text"}.get(idx) or rng.choice(["nan-text", "inf-text", "-inf-text", "garbage-text", "empty-text"])
     # the initial analysis performs ~700 operations on the fan's files; faults are placed well inside regulation
     start = {"sensor": [150, 400], "rpm": [150, 300], "pwm-read": [1200, 2000], "pwm-write": [262, 270, 300], "mode-write": [60, 200]}[comp]
     start = rng.choice(start)
     length = rng.choice([1, 10, 0])
     if idx < 15 and comp == "sensor":
         length = [1, 10, 0][(idx // 5) % 3]
+    if text_fault and idx == 10:
+        length = 10
     rule = {"path": path, "op": op, "from": start}
     if length:
         rule["to"] = start + length - 1
@@ -1382,7 +1430,7 @@ controllerAdjustmentTickRate: 10ms
     else:
         rule.update(action="content", raw="" if kind == "empty" else "1x2\n")
     rules = [rule, {"path": pwm1, "op": "w", "action": "quant", "val": 5}]
-    if cmd_fault:
+    if cmd_fault or text_fault:
         rules = rules[1:]
     case = {"scraped": scraped, "sensor": sensor_kind, "curve": curve_kind, "fault": {"component": comp, "kind": kind, "from_operation": start, "length": length or "for good"}, "orig_mode": orig_mode}
     cls = "sensor=%s:curve=%s:%s/%s/%s" % (sensor_kind, curve_kind, comp, kind, "permanent" if not length else "window")
@@ -1406,7 +1454,13 @@ controllerAdjustmentTickRate: 10ms
         while time.time() < t_end and d.p.poll() is None:
             time.sleep(0.05)
             k += 1
+            if text_fault and k >= 10 and (not length or k < 10 + (6 if length == 1 else 60)):
+                l2.write_atomic(sens, {"nan-text": "nan\n", "inf-text": "inf\n", "-inf-text": "-Inf\n", "garbage-text": "4x5\n", "empty-text": ""}[text_fault])
+                cmd_hit = True
+                continue
             l2.write_atomic(sens, "%d\n" % (40000 + (k * 1700) % 30000))
+            if text_fault:
+                continue
             if cmd_fault:
                 # placed by time: begins 0.5 s into regulation, lasts 0.3 s / 3 s (longer than the command time limit) / for good
                 if k == 10:
@@ -1420,6 +1474,36 @@ controllerAdjustmentTickRate: 10ms
             if n_path > start + max(length, 1) + 150:
                 break
         alive = d.p.poll() is None
+        follows, ff_seen = None, -1
+        if alive and length:
+            # "keeps regulating with the last good data": once the fault window is over the fans follow the temperature
+            # again. The sensor goes to 95 degrees (every curve kind then asks for full speed); the file fan (limits 0..255,
+            # same sensor and curve) has to arrive at 255 within 400 of its own control cycles (counted from its reads of the
+            # PWM file; the temperature average needs some tens of polls) - or the daemon has given up and handed it back
+            ffp = os.path.join(sd, "filefan")
+            if cmd_fault:
+                l2.write_atomic(os.path.join(sd, "sensor.mode"), "ok\n")
+            l2.write_atomic(sens, "95000\n")
+            n0 = sum(1 for e in d.events() if e["path"] == ffp and e["op"] == "r")
+            t_lim = time.time() + 60
+            cycles = 0
+            while time.time() < t_lim and d.p.poll() is None:
+                time.sleep(0.1)
+                if l2.read_int(ffp, -1) >= 250:
+                    follows = True
+                    break
+                cycles = sum(1 for e in d.events() if e["path"] == ffp and e["op"] == "r") - n0
+                if cycles >= 400:
+                    ff_seen = l2.read_int(ffp, -1)
+                    follows = ff_seen >= 250
+                    break
+            if d.p.poll() is not None:
+                follows = None
+            elif follows is None:
+                merged.inconclusive.append("C09 L2 scenario %d: fewer than 400 control cycles of the file fan in 60 s after the fault window (%d)" % (idx, cycles))
+            elif follows:
+                merged.counters["l2_fans_follow_the_temperature_after_the_fault_window"] = merged.counters.get("l2_fans_follow_the_temperature_after_the_fault_window", 0) + 1
+            alive = d.p.poll() is None
         if load:
             counts, errs = load.finish()
             merged.counters["l2_metrics_scrapes_during_faults"] = merged.counters.get("l2_metrics_scrapes_during_faults", 0) + sum(counts.values())
@@ -1435,6 +1519,10 @@ controllerAdjustmentTickRate: 10ms
                 merged.add_violation("daemon-deadlocked-after-io-fault:" + cls, "still running 90 s after SIGTERM, fans not handed back (hwmon fan mode %s pwm %s); a goroutine has been waiting for a lock for minutes:\n%s\n%s" % (l2.read_int(en1, -1), l2.read_int(pwm1, -1), blk, json.dumps(case)), replay)
             else:
                 merged.inconclusive.append("C09 L2 scenario %d: daemon did not exit (%s)" % (idx, cls))
+            return
+        if follows is False:
+            merged.add_violation("regulation-does-not-follow-the-temperature-after-the-fault-window:" + cls,
+                                 "sensor at 95 degrees for more than 400 control cycles of the file fan after the fault window, the daemon kept running, the file fan stayed at PWM %s; %s" % (ff_seen, json.dumps(case)), replay)
             return
         pm = l2.has_panic(out)
         if pm:
